@@ -241,6 +241,8 @@ pub trait TrX: Trait {
     const CLONEABLE: bool;
     fn name() -> &'static str;
     fn clone_vec<M: MemBuilder>(_v: &AnyVec<Self, M>) -> AnyVec<Self, M> { unreachable!("not cloneable") }
+    /// the published element clone function (`AnyVec::element_clone`, needs `Cloneable`)
+    fn element_clone_fn<M: MemBuilder>(_v: &AnyVec<Self, M>) -> Option<unsafe fn(*const u8, *mut u8, usize)> { None }
     /// `Clone::clone_from` (C08)
     fn clone_from_vec<M: MemBuilder>(_dst: &mut AnyVec<Self, M>, _src: &AnyVec<Self, M>) { unreachable!("not cloneable") }
     /// a destination for `clone_from` that currently holds ANOTHER element type (see `foreign_vec_impl`)
@@ -318,6 +320,7 @@ macro_rules! trx_cloneable {
             fn name() -> &'static str { $n }
             fn clone_vec<M: MemBuilder>(v: &AnyVec<Self, M>) -> AnyVec<Self, M> { v.clone() }
             fn clone_from_vec<M: MemBuilder>(dst: &mut AnyVec<Self, M>, src: &AnyVec<Self, M>) { dst.clone_from(src) }
+            fn element_clone_fn<M: MemBuilder>(v: &AnyVec<Self, M>) -> Option<unsafe fn(*const u8, *mut u8, usize)> { Some(v.element_clone()) }
             fn foreign_vec<T: Elem, M: MX>(kind: u8) -> Option<AnyVec<Self, M>> { foreign_vec_impl::<T, Self, M>(kind) }
             fn lz_element<'e, MS: MemBuilder, M: MemBuilder, C: Consumer<Self, M>>(e: &Element<'e, Self, MS>, depth: u8, a: &mut AnyVec<Self, M>, c: C) { lazy_feed(e, depth, a, c) }
             fn lz_pop<'e, MS: MemBuilder, M: MemBuilder, C: Consumer<Self, M>>(e: &Pop<'e, Self, MS>, depth: u8, a: &mut AnyVec<Self, M>, c: C) { lazy_feed(e, depth, a, c) }
